@@ -892,8 +892,12 @@ matrix_ass_subscr_impl(matrix* self, PyObject* args, PyObject* val)
     else
       val = (PyObject *)Matrix_NewFromSequence(val, MAT_ID(self));
 
-    if (!val)
+    if (!val) {
+      /* keep an OverflowError raised by the conversion */
+      if (PyErr_Occurred() && PyErr_ExceptionMatches(PyExc_OverflowError))
+        return -1;
       PY_ERR_INT(PyExc_NotImplementedError, "invalid type in assignment");
+    }
 
     decref_val = 1;
   }
